@@ -314,11 +314,21 @@ class Gen:
             rt = t
             if self.site("R14"):
                 structs = [x for x in self.work_types if x[0] == "s"]
-                if structs and r.random() < 0.4:
+                c14 = r.random()
+                if structs and c14 < 0.3:
                     t = rt = r.choice(structs)
                     self.injected = {"rule": "R14", "kind": "ConditionExpressionNotSupported"}
+                elif structs and c14 < 0.6:
+                    # breaks both rules at once (a struct on one side, another type on the other):
+                    # the type mismatch is the one met first
+                    st = r.choice(structs)
+                    if r.random() < 0.5:
+                        t, rt = st, self.other_type(st)
+                    else:
+                        t, rt = self.other_type(st), st
+                    self.injected = {"rule": "R14", "kind": "ConditionExpressionWrongType"}
                 else:
-                    rt = self.other_prim(t)
+                    rt = self.other_type(t)
                     self.injected = {"rule": "R14", "kind": "ConditionExpressionWrongType"}
             lcs.append((self.expr(t, depth), r.choice(CMPS), self.expr(rt, depth)))
         lc = None
@@ -489,7 +499,11 @@ class Gen:
             attrs = []
             for _ in range(n):
                 an = r.choice(ATTR_NAMES)
-                if r.random() < 0.75 or not self.struct_order:
+                ca = r.random()
+                if ca < 0.1:
+                    # attribute types are never checked for existence: a struct nobody declares, an array
+                    at = r.choice([("u", "Ghost", []), ("a", P("u8"), 2), ("u", "Ghost", [("g", P("i32"))])])
+                elif ca < 0.75 or not self.struct_order:
                     at = P(r.choice(["i32", "bool", "u8", "f64", "i64", "char"]))
                 else:
                     at = S(r.choice(self.struct_order))
@@ -604,12 +618,30 @@ def gen_multi_fault(seed, nfaults=2):
     if len(avail) < 2:
         return gen_wf(seed)
     picks = set()
-    for ru, n in rr.sample(avail, min(nfaults, len(avail))):
-        picks.add((ru, rr.randrange(n)))
+    multi = [(ru, n) for ru, n in avail if n >= 2]
+    if multi and rr.random() < 0.35:
+        # the same rule broken at two or three different sites (e.g. one undeclared name read in two
+        # different functions)
+        ru, n = rr.choice(multi)
+        for k in rr.sample(range(n), min(n, rr.choice([2, 2, 3]))):
+            picks.add((ru, k))
+    else:
+        for ru, n in rr.sample(avail, min(nfaults, len(avail))):
+            picks.add((ru, rr.randrange(n)))
     g = Gen(seed)
     g.inject2 = set(picks)
     p = g.program()
     return p, {"stream": "fault2", "seed": seed, "faults": g.multi}
+
+
+def flatten_positions(tree):
+    """The same program with every identifier at the default position (1, 0): what an AST built with
+    `Ident::new` looks like (all the repository's own tests build theirs that way)."""
+    if isinstance(tree, list):
+        if len(tree) == 4 and tree[0] == "id":
+            return ["id", tree[1], 1, 0]
+        return [flatten_positions(t) for t in tree]
+    return tree
 
 
 def gen_fault(seed, rule=None):
